@@ -467,7 +467,20 @@ func (r Rule) splitPos(path string) int {
 	if httpserver.CaseSensitivePath {
 		return strings.Index(path, r.SplitPath)
 	}
-	return strings.Index(strings.ToLower(path), strings.ToLower(r.SplitPath))
+	// (ASCII letters only: strings.ToLower changes the byte length of some other
+	// letters, and the index is applied to the path as it was sent)
+	return strings.Index(lowerASCII(path), lowerASCII(r.SplitPath))
+}
+
+// lowerASCII lower-cases the ASCII letters of s and leaves every other byte alone.
+func lowerASCII(s string) string {
+	b := []byte(s)
+	for i, c := range b {
+		if 'A' <= c && c <= 'Z' {
+			b[i] = c + 'a' - 'A'
+		}
+	}
+	return string(b)
 }
 
 // AllowedPath checks if requestPath is not an ignored path.
